@@ -91,6 +91,21 @@ def iter_source(t):
     return t, 'iter'
 
 
+def enum_index_over(x, base):
+    """x is the index delivered by enumerate() over `base` itself or over a zip that includes `base` (a zip is as long as its
+       shortest component): then x < len(base)"""
+    if not (isinstance(x, tuple) and x and x[0] == 'index_of'):
+        return False
+    coll = x[1]
+    if iter_source(coll)[0] == base:
+        return True
+    if isinstance(coll, tuple) and coll and coll[0] in ('zip',):
+        return any(c == base or (isinstance(c, tuple) and iter_source(c)[0] == base) for c in coll[1:])
+    if isinstance(coll, tuple) and coll and coll[0] == 'call' and coll[1].split('::')[-1] == 'zip':
+        return any(c == base or (isinstance(c, tuple) and iter_source(c)[0] == base) for c in coll[2:])
+    return False
+
+
 class Discharger:
     def __init__(self, cx, prog):
         self.cx = cx
@@ -774,6 +789,8 @@ class Discharger:
             def bounded(x):
                 """x <= len(base)"""
                 if x == ('lit', 0) or x == ln or (x, ln) in les:
+                    return True
+                if enum_index_over(x, base):
                     return True
                 # x <= len - b   (b unsigned)
                 if any(a == x and b[0] == 'sub' and b[1] == ln for (a, b) in les):
